@@ -197,6 +197,17 @@ def generate(repo):
         raise Refuse('Field.shift: the fold over self.tilt changed')
     return '\n'.join(out), ['ptt_vector / fit_tilt / multiply / Tilt / Field.shift wiring; lstsq, einsum, reshape guarded textually']
 
+def _guarded(fn):
+    """any structural surprise while walking the source (missing attribute, index, key) is a refusal of the translator"""
+    def wrapped(repo):
+        try:
+            return fn(repo)
+        except Refuse:
+            raise
+        except (AttributeError, IndexError, KeyError, TypeError, ValueError) as e:
+            raise Refuse(f'source structure changed ({type(e).__name__}: {e})')
+    return wrapped
+
 MODULES = [
-    {'name': 'TiltFit', 'src': 'lentil/plane.py', 'generator': generate, 'props': ['C04']},
+    {'name': 'TiltFit', 'src': 'lentil/plane.py', 'generator': _guarded(generate), 'props': ['C04']},
 ]
